@@ -114,7 +114,7 @@ static void c09(void) {
     mc_arena_init(&A_src, MAXIN); mc_arena_init(&A_dst, MAXIN + MAXIN / 4 + 4096); mc_arena_init(&A_cin, MAXIN + MAXIN / 4 + 4096); mc_arena_init(&A_out, MAXIN);
     g_big = malloc(MAXIN);
     uint8_t x[64];
-    int L2 = mc_thorough() ? 16 : 13, L3 = mc_thorough() ? 10 : 8;
+    int L2 = mc_thorough() ? 18 : 16, L3 = mc_thorough() ? 11 : 10;
     mc_stage("c09.all-binary-strings");
     for (int n = 0; n <= L2; n++)
         for (uint32_t bits = 0; bits < (1u << n); bits++) {
@@ -168,7 +168,7 @@ static void c09(void) {
                 }
     /* 16-bit hash positions alias beyond 64 KiB */
     static const size_t WL[] = { 65535, 65536, 65537, 65540, 70000, 131072, 131073, 131080 };
-    int pstep = mc_thorough() ? 1 : 3, qstep = mc_thorough() ? 1 : 4;
+    int pstep = 1, qstep = 1;
     mc_stage("c09.hash-position-wrap");
     for (int li = 0; li < 8; li++)
         for (int p = 1; p <= 64; p += pstep)
@@ -185,7 +185,7 @@ static void c09(void) {
     mc_stage("c09.debruijn-and-large");
     {
         static uint8_t dbs[65536 + 8]; db_out = dbs; db_n = 0; memset(db_a, 0, sizeof db_a); db(1, 1);
-        for (int rot = 0; rot < (mc_thorough() ? 64 : 16); rot++)
+        for (int rot = 0; rot < 64; rot++)
             for (int ext = 0; ext < 3; ext++) {
                 if (!mc_next()) continue;
                 size_t n = db_n + (size_t)ext * 4000;
@@ -197,7 +197,7 @@ static void c09(void) {
         /* L incompressible literals (no repeated 4-gram), then a repeat of the first m bytes, then 12 fresh literals: every literal-run
          * length (length-extension bytes 15, 15+255, 15+510, ...) x match lengths around the match-length extension boundaries */
         mc_stage("c09.literal-run-then-match.every-run-length");
-        { static const int ML[] = { 4, 5, 8, 18, 19, 20, 273, 274, 275 }; int maxL = mc_thorough() ? 4200 : 1100;
+        { static const int ML[] = { 4, 5, 8, 18, 19, 20, 273, 274, 275 }; int maxL = 4200;
           for (int L = 4; L <= maxL; L++) for (int mi = 0; mi < 9; mi++) {
               int m = ML[mi]; if (m > L) continue;
               if (!mc_next()) continue;
@@ -454,7 +454,7 @@ static void c10(void) {
     mc_arena_init(&A_src, MAXIN); mc_arena_init(&A_dst, MAXIN + MAXIN / 4 + 4096); mc_arena_init(&A_cin, MAXIN + MAXIN / 4 + 4096); mc_arena_init(&A_out, MAXIN);
     g_big = malloc(MAXIN);
     uint8_t x[64];
-    int L2 = mc_thorough() ? 18 : 15, L3 = mc_thorough() ? 11 : 9;
+    int L2 = mc_thorough() ? 20 : 18, L3 = mc_thorough() ? 12 : 11;
     mc_stage("c10.a.carquet-streams.binary-strings");
     for (int n = 0; n <= L2; n++)
         for (uint32_t bits = 0; bits < (1u << n); bits++) {
@@ -483,8 +483,8 @@ static void c10(void) {
         }
     static const size_t WL[] = { 65535, 65536, 65537, 65540, 70000, 131072, 131080 };
     for (int li = 0; li < 7; li++)
-        for (int p = 1; p <= 64; p += (mc_thorough() ? 1 : 3))
-            for (int q = 0; q < 64; q += (mc_thorough() ? 2 : 8)) {
+        for (int p = 1; p <= 64; p += 1)
+            for (int q = 0; q < 64; q += 2) {
                 if (!mc_next()) continue;
                 size_t n = WL[li];
                 for (size_t i = 0; i < n; i++) g_big[i] = (uint8_t)((i % (size_t)p) * 3 + 1);
@@ -511,7 +511,7 @@ static void c10(void) {
             }
         }
     }
-    int maxel = mc_thorough() ? 5 : 4;
+    int maxel = 5;
     mc_stage("c10.bc.snappy.reduced-alphabet.3-to-N-elements");
     for (int ne = 3; ne <= maxel; ne++) {
         uint64_t tot = 1; for (int i = 0; i < ne; i++) tot *= (uint64_t)n_red;
@@ -553,7 +553,7 @@ static void c10(void) {
         mc_desc("c10b:lz4;long;lit=%u;off=65535;ml=%u;final=%u", s1.lit, s1.ml + 4, FL[f]); mc_case_key(mc_mix(0xc3, ((uint64_t)m << 16) | ((uint64_t)f << 8) | (uint64_t)extra)); mc_nontrivial();
         lz4_case(&sb, &s1, 1, FL[f]);
     }
-    if (mc_thorough()) {
+    {
         mc_stage("c10.bc.lz4.three-sequences");
         static const uint32_t L3v[] = { 0, 1, 15 }, M3[] = { 0, 15, 270 }, O3[] = { 1, 4, 9 };
         for (int code = 0; code < 19683; code++) {
